@@ -614,6 +614,8 @@ func growMatrix(tier string) []Cfg {
 			cs = append(cs, Cfg{CSS: 256, Reg: 128, Max: max, Grow: g, Min: g%2 == 0})
 		}
 	}
+	// call stacks of more than 65536 segments (auto-growing only: a fixed stack of that size is 50 MB per thread)
+	cs = append(cs, Cfg{CSS: 524296, Reg: 5120, Max: 0, Grow: 32, Min: true}, Cfg{CSS: 600000, Reg: 128, Max: 4096, Grow: 7, Min: true})
 	cs = append(cs, Cfg{CSS: 256, Reg: 200, Max: 3000, Grow: 5, Min: true}, Cfg{CSS: 256, Reg: 129, Max: 2500, Grow: 1, Min: true, Ctx: true},
 		Cfg{CSS: 256, Reg: 5120, Max: 131072, Grow: 1, Min: false}, Cfg{CSS: 256, Reg: 5120, Max: 0, Grow: 32, Min: true}, Cfg{CSS: 256, Reg: 2048, Max: 0, Grow: 0, Min: false})
 	return cs
@@ -777,6 +779,16 @@ var limitProgs = []limitProg{
 		      for i = 1, #keep do sum = sum + keep[i]() + keep[i]() want = want + 2 * (N - i + 1) + 3 end
 		      if sum ~= want then return false, "escaped closures lost their variables: " .. sum .. " ~= " .. want end
 		      return ok, v`},
+	// the limit must be the same at every moment of a state's life: the same probe before and after 300 caught
+	// overflow errors (each raised with a full registry) must have the same outcome
+	{name: "unpack-ratchet", kind: "reg", wide: true, want: func(n int) int { return n },
+		src: `local t, big = {}, {} for i = 1, N do t[i] = i end for i = 1, N + 3000 do big[i] = i end
+		      local function probe() return pcall(function() mark() return select('#', unpack(t, 1, N)) end) end
+		      local ok1, v1 = probe()
+		      for i = 1, 300 do pcall(unpack, big) end
+		      local ok2, v2 = probe()
+		      if ok1 ~= ok2 then return false, "the limit moved: first " .. tostring(ok1) .. ", after 300 caught overflows " .. tostring(ok2) end
+		      return ok1, v1`},
 	{name: "pushn", kind: "reg", want: func(n int) int { return n },
 		src: `return pcall(function() mark() return pushn(N) end)`},
 	{name: "rec-api", kind: "call", api: true, want: func(n int) int { return n },
